@@ -34,11 +34,14 @@ def objBytes (data : Bytes) (n : Node) : Except Err Bytes :=
     if n.entry.kind == "marker" then .error (.other "TypeError")   -- `encode_raw()` returns None
     else if n.entry.kind == "pdu" then .error unmodelled           -- `PDU.encode_raw` decodes at the bounds
     else if n.entry.kind == "ip" then .ok (Ber.tlv (classTag n) [0, 0, 0, 0])   -- `int(ip_address(0)).to_bytes(4, "big")`
+    else if n.entry.name == "Boolean" then .ok [classTag n, 1, 1]  -- `b"\x01" if self.pyvalue else b"\x00"`: the sentinel is truthy
     else .ok [classTag n, 0]
   else .ok (Ber.tlv (classTag n) c)
 
 /-- `bytes(ScopedPDU(seq[0], seq[1], seq[2]))` for a decoded sequence node -/
 def scopedBytes (data : Bytes) (sc : Node) (fuel : Nat) : Except Err Bytes :=
+  if sc.entry.kind == "oid" then .error unmodelled     -- an OBJECT IDENTIFIER can be indexed too: its arcs become the "items"
+  else
   match V3Glue.items data sc fuel with
   | .error e => .error e
   | .ok (e :: nm :: p :: _) =>
